@@ -156,7 +156,7 @@ PROPS['C06'] = {
     'title': 'Malformed mappings are rejected, never silently mis-decoded',
     'functions': SEG_FUNCS,
     'harnesses': [
-        H('c06_vlq_len%d' % n, 'vlq', 'quick' if n in (1, 2, 5, 8) else 'thorough', 900, 8,
+        H('c06_vlq_len%d' % n, 'vlq', 'quick' if n in (1, 2, 5, 8, 14) else 'thorough', 900, 8,
           'every ASCII string of exactly %d bytes: foreign byte / unterminated / empty / >13 digits => Err, else values = reference' % n)
         for n in (1, 2, 3, 5, 8, 13, 14)
     ] + [
